@@ -165,7 +165,15 @@ impl Disk {
             let first = self.bitmap_blocks[0];
             let bitmap_block_count = (self.total_blocks + 4095) / 4096;
             for iblock in first..first+bitmap_block_count {
-                self.zap_block(&buf,iblock,(iblock-first)*512)?;
+                let offset = (iblock-first)*512;
+                // nothing to write if the image already holds this part of the buffer, in particular
+                // when only read operations were done on a write protected image
+                if let Ok(on_disk) = self.img.read_block(Block::PO(iblock)) {
+                    if offset+512<=buf.len() && on_disk[..]==buf[offset..offset+512] {
+                        continue;
+                    }
+                }
+                self.zap_block(&buf,iblock,offset)?;
             }    
         }
         Ok(())
